@@ -604,6 +604,8 @@ struct Gen {
     v2_done: bool,
     /// the clock stays below this (ns): earliest deadline of a request a duplicate was injected for
     pin: u128,
+    /// answered ids that were re-used already
+    reused: Vec<u64>,
 }
 
 fn gen_op(rng: &mut Rng, sv: &Server, g: &mut Gen, p: &Params) -> Op {
@@ -650,7 +652,7 @@ fn gen_op(rng: &mut Rng, sv: &Server, g: &mut Gen, p: &Params) -> Op {
             // is outside the properties' quantifiers (DESIGN.md, C04 scope note).
             let stable: Vec<u64> = sv.stable_ids(g.now).into_iter().filter(|i| !g.cancelled.contains(i)).collect();
             let mut reuse = stable.clone();
-            reuse.extend(g.answered.iter().copied().filter(|i| !sv.live_ids().contains(i)));
+            reuse.extend(g.answered.iter().copied().filter(|i| !sv.live_ids().contains(i) && !g.cancelled.contains(i)));
             let id = if !reuse.is_empty() && rng.chance(1, 5) { *rng.pick(&reuse) } else { g.nreq * 3 };
             if stable.contains(&id) {
                 // a duplicate of an in-flight request: the clock must not pass the original's deadline while the
@@ -659,8 +661,9 @@ fn gen_op(rng: &mut Rng, sv: &Server, g: &mut Gen, p: &Params) -> Op {
                     g.pin = g.pin.min(d);
                 }
             } else {
-                // an answered id is re-used once (until it is answered again)
+                // an answered id is re-used once per script
                 g.answered.retain(|i| *i != id);
+                g.reused.push(id);
             }
             g.ids.push(id);
             let rel = *rng.pick(&[0u64, 300_000, 2_000_000, 20_000_000, 500_000_000, 3_600_000_000_000]);
@@ -743,7 +746,7 @@ pub fn run_script(out: &mut Out, idx: u64, p: &Params, rng: &mut Rng, script: Op
     simt::take_log();
     let _sub = crate::cli::install_subscriber(p.sub);
     let mut sv = Server::new("s0", p.limit, p.resp, p.cap, p.coupled);
-    let mut g = Gen { now: 0, nreq: 0, ids: vec![], deadlines: vec![], answered: vec![], cancelled: vec![], forced: None, v2_done: false, pin: u128::MAX };
+    let mut g = Gen { now: 0, nreq: 0, ids: vec![], deadlines: vec![], answered: vec![], cancelled: vec![], forced: None, v2_done: false, pin: u128::MAX, reused: vec![] };
     let mut i = 0usize;
     loop {
         let op = match script {
@@ -764,7 +767,7 @@ pub fn run_script(out: &mut Out, idx: u64, p: &Params, rng: &mut Rng, script: Op
         out.line(&format!("op {}", op.render()));
         apply(out, &rt, &mut sv, &op);
         for m in sv.sim.borrow().wire.iter() {
-            if m.message.is_ok() && !g.answered.contains(&m.request_id) {
+            if m.message.is_ok() && !g.answered.contains(&m.request_id) && !g.reused.contains(&m.request_id) {
                 g.answered.push(m.request_id);
             }
         }
